@@ -11,6 +11,7 @@ pub mod c06;
 pub mod c07;
 pub mod c08;
 pub mod c12;
+pub mod c13;
 pub mod c14;
 pub mod c15;
 pub mod c16;
@@ -35,6 +36,7 @@ pub fn run(id: &str, tier: Tier) -> Option<Outcome> {
         "C07" => c07::run(tier),
         "C08" => c08::run(tier),
         "C12" => c12::run(tier),
+        "C13" => c13::run(tier),
         "C14" => c14::run(tier),
         "C15" => c15::run(tier),
         "C16" => c16::run(tier),
@@ -56,6 +58,7 @@ pub fn replay(id: &str, replay: &serde_json::Value) -> Option<Vec<crate::mc::Vio
         "C07" => Some(c07::replay(replay)),
         "C08" => Some(c08::replay(replay)),
         "C12" => Some(c12::replay(replay)),
+        "C13" => Some(c13::replay(replay)),
         "C14" => Some(c14::replay(replay)),
         "C15" => Some(c15::replay(replay)),
         "C16" => Some(c16::replay(replay)),
